@@ -7,7 +7,7 @@
 //! granularity of its atomic operations.  After the schedule is exhausted the
 //! remaining threads run to completion in thread order.
 //!
-//! Input line:  case <id> strict|partial T <n> <terms..> TH <k> (<n_i> <m:a>..)* S <len> <tid>.. [X]
+//! Input line:  case <id> strict|partial[S] T <n> <terms..> TH <k> (<n_i> <m:a>..)* S <len> <tid>.. [X]
 //! Output: new:.. / one line per granted operation `t<tid> <Op> <addr>` /
 //!         `T<tid> <outcome>|<outcome>..` per thread / `verify:..`
 
@@ -48,7 +48,10 @@ fn run_case(line: &str, out: &mut impl Write) {
     let mut t = Toks(line.split_whitespace());
     assert_eq!(t.next(), "case");
     let id = t.next().to_string();
-    let partial = t.next() == "partial";
+    // a trailing `S`: the threads share the ORIGINAL by reference (scoped threads) instead of working through clones of it
+    let fallback = t.next().to_string();
+    let shared = fallback.ends_with('S');
+    let partial = fallback.trim_end_matches('S') == "partial";
     let terms = caseparse::parse_terms(&mut t);
     assert_eq!(t.next(), "TH");
     let nth: usize = t.num();
@@ -96,12 +99,14 @@ fn run_case(line: &str, out: &mut impl Write) {
             .iter()
             .enumerate()
             .map(|(tid, calls)| {
-                let u = original.clone();
+                let owned = if shared { None } else { Some(original.clone()) };
+                let orig_ref = &original;
                 s.spawn(move || {
+                    let u: &Unimock = owned.as_ref().unwrap_or(orig_ref);
                     scheduler::enter(tid);
                     let mut res = vec![];
                     for (m, a) in calls {
-                        let r = catch_unwind(AssertUnwindSafe(|| do_call(&u, *m, *a)));
+                        let r = catch_unwind(AssertUnwindSafe(|| do_call(u, *m, *a)));
                         res.push(match r {
                             Ok(v) => {
                                 if v.is_empty() {
@@ -114,7 +119,7 @@ fn run_case(line: &str, out: &mut impl Write) {
                         });
                     }
                     scheduler::leave(tid);
-                    drop(u);
+                    drop(owned);
                     res
                 })
             })
